@@ -53,6 +53,12 @@ Definition py_blank : pyindex := mkPy 0 [] [] [] [] false [].
 (* list.sort(key=lambda x: x[0]) on (stamp, position) pairs: a stable sort by the first component *)
 Definition sort_by_first (l : list (Z * nat)) : list (Z * nat) := stable_sort (fun a b => Z.leb (fst a) (fst b)) l.
 
+(* Optional[str] parameters: truthiness (None and "" are false), and the string itself where the translator knows it to be one;
+   sorted(pairs, key=lambda x: x[1]): a stable sort by the second component *)
+Definition opt_truthy (m : option str) : bool := match m with Some (_ :: _) => true | _ => false end.
+Definition opt_str (m : option str) : str := match m with Some s => s | None => [] end.
+Definition sort_by_second (l : list (Z * nat)) : list (Z * nat) := stable_sort (fun a b => Nat.leb (snd a) (snd b)) l.
+
 (* the abstraction onto the model's index: positions get the model's unit payload, the nested tag map is flattened key by key *)
 Definition unit_bucket (b : list nat) : list (nat * unit) := map (fun i => (i, tt)) b.
 Definition ubuckets {K} (d : pydict K (list nat)) : imap K unit := map (fun kb => (fst kb, unit_bucket (snd kb))) d.
